@@ -359,7 +359,7 @@ func planHeights(m map[uint64]opchildtypes.ExecutorChangePlan) []string {
 }
 
 func checkC14(run *mon.Run, rng *mon.Rand, thorough bool) {
-	run.Rule = "every plan class {new | known operator} x {new key | the operator's own key | a key held by another operator} x executor lists {empty, one, three, overlapping the current ones} x max validators {1,2,3,100} x {no other operation, add, remove in the plan block} applied to every validator-set state reachable by <= D add/remove/end-block operations from three genesis sets (D=2 quick, 3 thorough); the engine set, state, executors are read at h-1, h and h+1; malformed plans are offered and the in-memory plan table compared before/after. Distinct non-trivial = (class, structural relation to the state, max, executors, mid-block op, #validators) cells"
+	run.Rule = "every plan class {new | known operator} x {new key | the operator's own key | a key held by another operator} x executor lists {empty, one, three, overlapping the current ones, one address twice} x max validators {1,2,3,100} x {no other operation, add, remove in the plan block} applied to every validator-set state reachable by <= D add/remove/end-block operations from three genesis sets (D=2 quick, 3 thorough); the engine set, state, executors are read at h-1, h and h+1; malformed plans are offered and the in-memory plan table compared before/after. Distinct non-trivial = (class, structural relation to the state, max, executors, mid-block op, #validators) cells"
 	run.Assumptions = []string{"engine oracle = cometbft v0.38.12 types.ValidatorSet", "the plan table is process memory shared by branches; it is snapshotted and restored around every scenario"}
 	for _, c := range []string{"C14.block_processing_does_not_fail", "C14.engine_accepts_plan_batch", "C14.engine_has_exactly_plan_validator", "C14.state_agrees", "C14.executors_replaced", "C14.applied_exactly_once",
 		"C14.no_effect_before_height", "C14.malformed_plan_rejected", "C14.malformed_plan_no_side_effect"} {
@@ -386,7 +386,8 @@ func checkC14(run *mon.Run, rng *mon.Rand, thorough bool) {
 	c.malformed(c.bases[0])
 	classes := []planClass{{"new-operator", "new-key"}, {"new-operator", "other-operators-key"}, {"known-operator", "own-key"}, {"known-operator", "new-key"}, {"known-operator", "other-operators-key"}}
 	e0 := c.bases[0].e
-	execLists := [][]string{{}, {sim.NewAccount("newexec1").String()}, {sim.NewAccount("newexec1").String(), sim.NewAccount("newexec2").String(), sim.NewAccount("newexec3").String()}, {e0.Executors[0].String(), sim.NewAccount("newexec1").String()}}
+	execLists := [][]string{{}, {sim.NewAccount("newexec1").String()}, {sim.NewAccount("newexec1").String(), sim.NewAccount("newexec2").String(), sim.NewAccount("newexec3").String()}, {e0.Executors[0].String(), sim.NewAccount("newexec1").String()},
+		{sim.NewAccount("newexec1").String(), sim.NewAccount("newexec2").String(), sim.NewAccount("newexec1").String()}} // the last one names an executor twice
 	n := 0
 	for bi, b := range c.bases {
 		for _, cls := range classes {
